@@ -341,6 +341,18 @@ def layout_variants(text, lg, rnd, nrandom):
     exotic = ["\x0c", "\x0b", "\x1c", "\x1d", "\x1e", "\x85", "\u2028", "\u2029"]
     variants["comments_exotic_chars"] = "\n".join((l + " # note" + exotic[i % len(exotic)] + "Vac | 63 " + exotic[(i + 3) % len(exotic)] + "float zz = 1.5" if l.strip() and not body(i) else l)
                                                   for i, l in enumerate(lines))
+    # comments made of characters that mean something elsewhere in the language (quotes - also unbalanced -, commas before
+    # digits, brackets, braces, keywords, the comment sign itself): a comment is layout whatever it contains
+    pool = ['# 3/4" fibre, 1,2', "# it's {x} | [0, 1]", '# "', "# for int i in 0:2", '# "a" "b" "', "# = ,5 ,6 # ## ;", "# float array A[2,2] =", "# \\ \" \'", "# include \"x.xbb\"", "#\"#"]
+    variants["comments_token_chars"] = "\n".join((l + " " + pool[i % len(pool)] if l.strip() and not body(i) else l) for i, l in enumerate(lines))
+    outl = [pool[0], pool[2]]
+    for i, l in enumerate(lines):
+        outl.append(l)
+        nxt_body = i + 1 < len(lines) and body(i + 1)
+        if l.strip() and not nxt_body and not (l.rstrip().endswith("=") and " array " in l):
+            outl.append(pool[(2 * i + 1) % len(pool)])
+    variants["comment_lines_token_chars"] = "\n".join(outl)
+    variants["one_unbalanced_quote_comment_first"] = '# 3/4" fibre\n' + text
     for base in ("comments", "blank_and_comment_lines", "spaces1"):
         variants[base + "_cr"] = variants[base].replace("\n", "\r")
         variants[base + "_crlf"] = variants[base].replace("\n", "\r\n")
@@ -358,6 +370,26 @@ def layout_variants(text, lg, rnd, nrandom):
     return variants
 
 
+# own O6 skeletons: string values whose content looks like other parts of the language
+O6_EXTRA = [
+    ["name s1", "version 1.0", "", 'Gate("0,1", %(f)s, label="a,2 # b") | %(m)s', "Vac | %(m)s"],
+    ["name s2", "version 1.0", 'target dev (label="x = {y}", tag="[1,2]", n=%(i)s)', "", 'str s = "for int i in 0:2"', 'Gate(s, k="# not a comment") | %(m)s', 'Gate(names=["1,2", "3 ,4"]) | %(m)s'],
+    ["name s3", "version 1.0", "", 'str a = "2,3"', 'str b = "include"', 'str c = "1.5,2.5"', "Gate(a, b, %(i)s) | %(m)s", 'Gate(%(f)s, key=c) | [%(m)s, %(m)s]'],
+    ["name s4", "version 1.0", "", "float array A =", "    %(f)s, %(f)s", "    %(f)s, %(f)s", 'Gate(A, "0,1") | %(m)s', "for str s in [\"1,2\", \"a#b\"]", '    Gate(s, k="7,8") | %(m)s'],
+    ["name s5", "version 1.0", "", 'Gate("it\'s", "a | b", "(1,2)") | %(m)s', "Dgate(%(f)s ,%(f)s) | %(m)s", "MZgate(%(f)s, %(f)s) | [%(m)s ,%(m)s]"],
+]
+
+
+def gen6(spec, lv):
+    from . import c02, c11
+    if spec[0] != "c18":
+        return c02.gen(spec, lv)
+    modes = []
+    sub = c11.Sub(lv, modes)
+    lines = [l % sub if "%(" in l else l for l in O6_EXTRA[spec[1]]]
+    return {"text": "\n".join(lines) + "\n", "pre": [z3.Distinct(modes)] if lv.symbolic and len(modes) > 1 else []}
+
+
 def o6_run(arg):
     tier, spec, seed = arg
     from ..pysym import engine, stubs, skel
@@ -366,7 +398,7 @@ def o6_run(arg):
     bb = w["bb"]
     out = {"spec": spec, "result": "holds", "paths": 0, "stats": None, "why": None, "cex": None, "funcs": [], "reach": 0}
     lv = skel.Leaves()
-    g = c02.gen(spec, lv)
+    g = gen6(spec, lv)
     text = g["text"]
     rnd = random.Random(hash((seed, repr(spec))) & 0xFFFFFF)
     variants = layout_variants(text, w["lang"], rnd, 1 if tier == "quick" else 4)
@@ -433,7 +465,7 @@ def o6_concrete(spec, vname, vals, seed, tier, w=None):
     import blackbird.auxiliary as aux
     w = w or _script.plain_env()
     lv = skel.Leaves(values=vals)
-    text = c02.gen(spec, lv)["text"]
+    text = gen6(spec, lv)["text"]
     rnd = random.Random(hash((seed, repr(spec))) & 0xFFFFFF)
     variants = layout_variants(text, w["lang"], rnd, 1 if tier == "quick" else 4)
     v = variants[vname]
@@ -576,7 +608,7 @@ def main():
     from . import c02, _script
     s2 = c02.gen_specs("quick", common.seed())
     nm = len(c02.META) * len(c02.STMTS)
-    specs = s2[:nm:(3 if t == "quick" else 1)] + s2[nm::(25 if t == "quick" else 4)]
+    specs = s2[:nm:(3 if t == "quick" else 1)] + s2[nm::(25 if t == "quick" else 4)] + [("c18", i) for i in range(len(O6_EXTRA))]
     res6 = U.run_parallel(o6_run, [(t, s, common.seed()) for s in specs])
     U.collect(rep, res6, key_fn=lambda r: "O6 " + str(r["cex"].get("vname")) + ": " + _script.default_key(r),
               replay_fn=lambda r: REPLAY_O6 % {"root": common.ROOT, "spec": r["spec"], "vname": r["cex"]["vname"], "vals": r["cex"]["values"], "seed": common.seed(), "tier": t},
